@@ -5,7 +5,7 @@ import types
 
 import z3
 
-from .. import core, econ, harness, rel, shim
+from .. import core, econ, gx, harness, rel, shim
 from ..core import sym, SymReal
 from . import c03, c04, c05
 
@@ -83,9 +83,9 @@ def run_walk(unit):
         c05.install_walk(m, S, v)
         if symbolic:
             with shim.shadow(*c05.RES_SHADOWS):
-                R.Reservoir.Calculate.__wrapped__(m.reserv, m)
+                gx.unwrapped(R.Reservoir.Calculate)(m.reserv, m)
         else:
-            R.Reservoir.Calculate.__wrapped__(m.reserv, m)
+            gx.unwrapped(R.Reservoir.Calculate)(m.reserv, m)
         return m
 
     def fn():
